@@ -330,6 +330,30 @@ fn entry_points<X: Sx>(ctx: &Ctx, idx: u64, l: usize, m: usize) {
             probe(ctx, "blind_proof_verify", &format!("plain-proof/L-{lname}/idx-{inm}/{base}"), pl, il2.len() * 2, || proof.blind_proof_verify(&pk, None, None, *ll, Some(&ml), None, Some(&il2), None));
         }
     }
+    // blind_proof_verify: message counts that do not match the index counts (either list, both directions, absent)
+    {
+        let cut = |v: &Vec<Vec<u8>>| v[..v.len().saturating_sub(1)].to_vec();
+        let more = |v: &Vec<Vec<u8>>| { let mut x = v.clone(); x.push(vec![9]); x };
+        let variants = |v: &Vec<Vec<u8>>| -> Vec<(&'static str, Option<Vec<Vec<u8>>>)> {
+            vec![("absent", None), ("empty", Some(vec![])), ("one-less", Some(cut(v))), ("one-more", Some(more(v))), ("honest", Some(v.clone())), ("many", Some(vec![vec![1u8]; 200]))]
+        };
+        for ll in [None, Some(l)] {
+            let lname = ll.map(|x| x.to_string()).unwrap_or("None".into());
+            for (an, a) in variants(&dm) {
+                for (bn, b) in variants(&dcm) {
+                    let units = a.as_ref().map_or(0, |x| x.len()) + b.as_ref().map_or(0, |x| x.len()) + d.len() + c.len();
+                    probe(ctx, "blind_proof_verify", &format!("L-{lname}/msgs-{an}/committed-{bn}/{base}"), pl, units, || {
+                        bproof.blind_proof_verify(&pk, None, None, ll, a.as_deref(), b.as_deref(), Some(&d), Some(&c))
+                    });
+                    if an == "honest" || bn == "honest" {
+                        probe(ctx, "blind_proof_verify", &format!("L-{lname}/msgs-{an}/committed-{bn}/no-indexes/{base}"), pl, units, || {
+                            bproof.blind_proof_verify(&pk, None, None, ll, a.as_deref(), b.as_deref(), None, None)
+                        });
+                    }
+                }
+            }
+        }
+    }
     // signatures / proofs given as arbitrary octets to the holder-side entry points
     for n_ in [0usize, 1, 79, 80, 81, 160] {
         for (cl, b) in contents(&mut r, n_, &sigb, &sigb) {
